@@ -5,11 +5,12 @@ variable named *missing_label* (the configured sentinel of the strategy or of a 
 bypass site.  Also lists np.isnan(...) applied to a variable named y* (label arrays)."""
 import ast
 import os
+from ..repo_root import REPO
 
 PREDS = {"is_labeled", "is_unlabeled", "labeled_indices", "unlabeled_indices"}
 
 
-def scan(root="/repo/skactiveml"):
+def scan(root=REPO + "/skactiveml"):
     sites = []
     for dp, dn, fs in os.walk(root):
         parts = dp.split(os.sep)
@@ -38,7 +39,7 @@ def scan(root="/repo/skactiveml"):
                 if ml is None and len(node.args) >= 2:
                     ml = node.args[1]
                 fn = funcs.get(id(node), "<module>")
-                rel = os.path.relpath(path, "/repo")
+                rel = os.path.relpath(path, REPO)
                 if ml is None:
                     sites.append((rel, fn, node.lineno, name, "omitted", False))
                     continue
@@ -65,7 +66,7 @@ REVIEWED = {
 }
 
 
-def scan_uses(root="/repo/skactiveml"):
+def scan_uses(root=REPO + "/skactiveml"):
     sites = []
     for dp, dn, fs in os.walk(root):
         parts = dp.split(os.sep)
@@ -75,7 +76,7 @@ def scan_uses(root="/repo/skactiveml"):
             if not f.endswith(".py"):
                 continue
             path = os.path.join(dp, f)
-            rel = os.path.relpath(path, "/repo")
+            rel = os.path.relpath(path, REPO)
             if rel in HELPER_FILES:
                 continue
             tree = ast.parse(open(path).read())
